@@ -10,6 +10,29 @@ from . import common
 def run(ctx):
     P = semcheck.gen_programs(ctx.seed * 7919 + 251, ctx.pick(110, 1500), "strat", p_edge=False)
     P += common.family_small(ctx.pick(60, 800), ctx.seed + 25000)
+    # the same probabilistic statement written twice is two independent choices (and must stay two in the exported text)
+    import copy
+    import random
+    rng = random.Random(ctx.seed + 2525)
+    D = semcheck.gen_programs(ctx.seed * 7919 + 252, ctx.pick(50, 600), "strat", p_edge=False) + \
+        common.family_small(ctx.pick(30, 400), ctx.seed + 25100)
+    for p in D:
+        kinds = [k for k in ("facts", "ads", "rules") if p[k]]
+        for _ in range(rng.randint(1, 2)):
+            k = rng.choice(kinds)
+            st = copy.deepcopy(rng.choice(p[k]))
+            p[k].append(st)
+        p.pop("order", None)
+
+    def den(p):
+        n = 1
+        for f in p["facts"]:
+            n *= f["p"][1]
+        for ad in p["ads"]:
+            vs = progs.clause_vars([h["atom"] for h in ad["heads"]], ad["body"])
+            n *= ad["heads"][0]["p"][1] ** (len(p["consts"]) ** len(vs))
+        return n
+    P += [p for p in D if progs.n_worlds(p) <= 2048 and den(p) <= 10 ** 8]
 
     def variants(p):
         t = progs.render(p)
